@@ -35,7 +35,7 @@ REQUIRED = ["programs", "steps_checked", "timed_resumes", "select_timeouts",
             "tasks_raised", "timer_fires", "timers_cancelled", "quiescent_checks",
             "programs_natural_drive", "natural_select_timeouts",
             "nested_subtask_returns", "nested_subtask_raises",
-            "late_started_timers", "absolute_timers"]
+            "late_started_timers", "absolute_timers", "tasks_raised_non_exception"]
 TIMEOUT = {"quick": 1200, "thorough": 9000}
 
 _st = {}
@@ -64,6 +64,10 @@ def get_world (epoll):
 
 
 class _Horizon (BaseException):
+  pass
+
+
+class TaskAbort (BaseException):
   pass
 
 
@@ -276,6 +280,12 @@ def run_program (case, rep):
         rep.count("tasks_raised")
         finished.add(tid)
         leave()
+        if len(st) > 1 and st[1] == "base":
+          # a failure that is not an Exception subclass (sys.exit() in a task
+          # is one): "a task that raises is descheduled without affecting the
+          # others" makes no exception for those
+          rep.count("tasks_raised_non_exception")
+          raise TaskAbort("task %s aborts on purpose" % (tid,))
         raise RuntimeError("task %s fails on purpose" % (tid,))
       else:
         raise KeyError(kind)
@@ -400,9 +410,11 @@ def run_program (case, rep):
           externals.sort(key=lambda e: e[0])
         if te is None and nd is None: 
           w.advance(end - clock.now)
-  except Exception:
+  except (Exception, TaskAbort):
     fire("scheduler raises", traceback.format_exc()[-800:])
-    return True
+    _st.pop("w", None)
+    raise simnet.Inconclusive("an exception escaped the scheduler; shard "
+                              "abandoned after reporting the violation")
   # ---- judge
   if clock.now < t_start + HORIZON - 1e-9:
     fire("scheduler does not reach quiescence (step budget)",
@@ -526,7 +538,7 @@ def gen_random (rng, n):
                                     ["wake", tok, a, rng.choice(["schedule", "fast"])]]
     if rng.random() < 0.25:
       tid = rng.randrange(nt)
-      tasks[tid]["steps"].append(["raise"])
+      tasks[tid]["steps"].append(["raise"] if rng.random() < 0.6 else ["raise", "base"])
     timers = []
     for _ in range(rng.choice([0, 0, 1, 2])):
       rec = rng.random() < 0.6
@@ -547,7 +559,7 @@ def gen_small ():
   V = [["y0"], ["num", 1], ["sleep", 2], ["sel_to", 1], ["sel_data", 1.5, None],
        ["again", dict(ops=[1], end="ret", value="x")],
        ["again", dict(ops=[], end="raise", value="x")],
-       ["tf", dict(ops=[0.5], end="ret", value="y")], ["raise"],
+       ["tf", dict(ops=[0.5], end="ret", value="y")], ["raise"], ["raise", "base"],
        ["again", dict(ops=[0.5], end="ret", value="z", propagate=False,
                       inner=dict(ops=[0.5], end="raise", value="q"))],
        ["tf", dict(ops=[], end="ret", value="z", propagate=True,
